@@ -46,3 +46,36 @@ func init() {
 	controlTable["ord-mapkeys-concat"] = ordCtl("OrdMapKeysConcat", true)
 	controlTable["ord-clean"] = ordCtl("OrdClean", false)
 }
+
+func init() {
+	sinkP := func(c *Ctx) InstrPred { return c.isCallTo("sink") }
+	controlTable["path-req"] = func(c *Ctx) (bool, string) {
+		bad, good := c.Fn("PathReqBad"), c.Fn("PathReqGood")
+		if bad == nil || good == nil {
+			return false, "control functions missing"
+		}
+		m := litHas(false, "nonnil(ctlState.err(")
+		_, okBad := c.Requires(bad, sinkP(c), m, c.newFacts(bad))
+		_, okGood := c.Requires(good, sinkP(c), m, c.newFacts(good))
+		return !okBad && okGood, "REQ engine verdicts wrong on controls"
+	}
+	controlTable["path-mpt"] = func(c *Ctx) (bool, string) {
+		bad, good := c.Fn("PathMptBad"), c.Fn("PathMptGood")
+		if bad == nil || good == nil {
+			return false, "control functions missing"
+		}
+		_, okBad := c.MustPass(bad, sinkP(c), c.isCallTo("gate"), nil, c.newFacts(bad))
+		_, okGood := c.MustPass(good, sinkP(c), c.isCallTo("gate"), nil, c.newFacts(good))
+		_, okGoodNoFacts := c.MustPass(good, sinkP(c), c.isCallTo("gate"), nil, nil)
+		return !okBad && okGood && !okGoodNoFacts, "MPT engine verdicts wrong on controls (incl. path-sensitivity)"
+	}
+	controlTable["path-nt"] = func(c *Ctx) (bool, string) {
+		bad, good := c.Fn("PathNtBad"), c.Fn("PathNtGood")
+		if bad == nil || good == nil {
+			return false, "control functions missing"
+		}
+		_, okBad := c.NeverTwice(bad, sinkP(c), false, nil)
+		_, okGood := c.NeverTwice(good, sinkP(c), false, nil)
+		return !okBad && okGood, "NT engine verdicts wrong on controls"
+	}
+}
